@@ -465,7 +465,7 @@ func c17r3(c *core.Ctx) {
 					}
 					return false
 				}
-				if n, isK := core.ConstInt(bo.Y); isK && isLen(bo.X) {
+				if n, isK := core.ConstInt(bo.Y); isK && (isLen(bo.X) || firstValueLenOrZero(bo.X, tag)) {
 					switch bo.Op {
 					case token.LSS:
 						return false, n >= spec.need
@@ -485,7 +485,14 @@ func c17r3(c *core.Ctx) {
 				need = int64(bits / 8)
 				bucket = core.Args(i)[0]
 			} else if ia, ok := i.(*ssa.IndexAddr); ok {
-				if k, isK := core.ConstInt(ia.Index); isK {
+				// bytes of an item ( b[3] ), not an element of the list of items ( list[0] of an inlined length helper )
+				isBytes := false
+				if sl, isSl := ia.X.Type().Underlying().(*types.Slice); isSl {
+					if eb, isB := sl.Elem().Underlying().(*types.Basic); isB && eb.Kind() == types.Uint8 {
+						isBytes = true
+					}
+				}
+				if k, isK := core.ConstInt(ia.Index); isK && isBytes {
 					need = k + 1
 					bucket = ia.X
 				}
@@ -515,6 +522,15 @@ func c17r3(c *core.Ctx) {
 			}
 			call, isC := core.StripConv(bo.X).(*ssa.Call)
 			if !isC {
+				if firstValueLenOrZero(bo.X, tag) {
+					limit := n
+					if bo.Op == token.LEQ || bo.Op == token.GTR {
+						limit = n + 1
+					}
+					if limit > spec.need {
+						strict = true
+					}
+				}
 				return
 			}
 			isTagLen := false
